@@ -96,6 +96,8 @@ impl<S: BuildHasher + Clone + 'static + Send> AsyncLFUPolicy<S> {
             .send(())
             .await
             .map_err(|e| CacheError::SendError(format!("{}", e)))?;
+        #[cfg(transparencies_stretto_verif)]
+        crate::verif::yield_point("polclose:after_stop");
         self.is_closed.store(true, Ordering::SeqCst);
         Ok(())
     }
